@@ -213,8 +213,9 @@ class Heating(PoupoolActor):
         # we will call StopRepeatException but never land in the heating state.
         if self.filtration_allow_heating():
             self._proxy.heat.defer()
-        else:
-            self.do_delay(self.STATE_REFRESH_DELAY, self.do_repeat_waiting.__name__)
+        # Keep polling. The heat transition is conditional and can be refused (the filtration state
+        # can change in between). A state change cancels the timer.
+        self.do_delay(self.STATE_REFRESH_DELAY, self.do_repeat_waiting.__name__)
 
     @do_repeat()
     def on_enter_heating(self):
